@@ -88,9 +88,17 @@ def problems(
         rel = draw(st.permutations(rel))
         energy_by_block.append([base + r for r in rel])
         base += max(rel) + draw(st.integers(8, 14)) * unit  # cross-block gap >= 2 (8 units of 1/4)
+    imag_rel_by_block = [[0] * s for s in blocks]
     if not hermitian and complex_energy:
         # complex energies: rotate block bases into the complex plane, keeping |gap| >= 2
         imag_by_block = [draw(st.integers(-8, 8)) * unit for _ in blocks]
+        # ... and, for some blocks, the gaps INSIDE the block as well: its levels then share the real part and differ
+        # along the imaginary axis (E_i - E_j purely imaginary)
+        for b, s in enumerate(blocks):
+            if s >= 2 and draw(st.integers(0, 2)) == 0:
+                lo = min(energy_by_block[b])
+                imag_rel_by_block[b] = [e - lo for e in energy_by_block[b]]
+                energy_by_block[b] = [lo] * s
     else:
         imag_by_block = [0] * n_blocks
     # "pinned" class: a drawn block (any position, not only the lowest one) has its first level at exactly zero, so a
@@ -107,7 +115,7 @@ def problems(
     energy, eimag = [], []
     for b in assign:
         energy.append(energy_by_block[b][counters[b]] + offset)
-        eimag.append(imag_by_block[b])
+        eimag.append(imag_by_block[b] + imag_rel_by_block[b][counters[b]])
         counters[b] += 1
     if all(e == 0 for e in energy) and all(e == 0 for e in eimag):
         energy = [e + eden for e in energy]  # an all-zero H_0 diagonal is rejected by design
